@@ -17,10 +17,10 @@ CLAIMED = {
  "C05": ("For both collapsing stores every function (adjust, extendRange, normalize, Add*, MergeWith same-kind and generic, Copy, Clear, decode) is proved for all inputs and all bin limits N>=1: len(bins) <= N and window width <= N are invariants, count = sum of bins (no weight lost), and each operation's content equals the previous content folded at the new collapsing edge plus the added weight on max/min(index, edge) (per-operation form of 'exact content folded at the edge'); every merge is panic-free, including a range wider than N into an empty or cleared store (genuine defect found and fixed, see known_findings.txt).",
          "The composition lemma Fold(Fold(G,e1)+d, e2) = Fold(G+d, e2) for e2 beyond e1, which turns the per-operation statements into the history statement, is code-independent and stated in DESIGN, not machine-checked; the fold placement of the generic (other-kind) merge path is proved only as conservation + invariant. Sketch-level accuracy for retained bins follows from C01's contract with the clamped store contract. A-REAL; getNewLength's float expression is evaluated in real arithmetic.",
          "DESIGN 4 C05"),
- "C06": ("Proved for all inputs: every Encode (stores, mappings, both sketch variants) only appends to the caller's buffer (existing bytes and length prefix kept) and leaves the abstract state of the sketch unchanged; every decoder consumes its input strictly from the front, preserves the store/sketch invariants and never removes weight; primitive codec round trips and framing are C18.",
+ "C06": ("Proved for all inputs: every Encode (stores, mappings, both sketch variants) only appends to the caller's buffer (existing bytes and length prefix kept) and leaves the abstract state of the sketch unchanged; every decoder consumes its input strictly from the front, preserves the store/sketch invariants and never removes weight; the mapping encoder is pinned to the bytes it writes (kind flag, IEEE little-endian base and offset), the sketch encoder to the presence of the zero-weight and mapping blocks it is asked for; the generic bin decoder is proved to keep its running index equal to the sum of the deltas read and to add exactly the weights read; primitive codec round trips and framing are C18.",
          "What the appended bytes denote (bins, zero weight, mapping) and the round trip decode(encode(s)) = s are NOT discharged deductively here (no stream-denotation contract yet); no bounded stand-in is built yet either. Paginated store: native decoders and Encode under contract (C04), not the sketch built on it.",
          "DESIGN 4 C06"),
- "C07": ("Proved: the per-flag payload framing of the sketch decoder - the plain decoder consumes exactly the documented payload of each summary-statistics block (varfloat64 length for the total count, 8 bytes for sum/min/max) and rejects every other feature flag (genuine defect found and fixed: it skipped 8 bytes for the varfloat count); flag type/subflag dispatch; bin layouts other than the three documented ones are rejected by every store.",
+ "C07": ("Proved: the per-flag payload framing of the sketch decoder - the plain decoder consumes exactly the documented payload of each summary-statistics block (varfloat64 length for the total count, 8 bytes for sum/min/max) and rejects every other feature flag (genuine defect found and fixed: it skipped 8 bytes for the varfloat count); flag type/subflag dispatch; bin layouts other than the three documented ones are rejected by every store; the generic bin decoder keeps its running index equal to the sum of the deltas read and adds exactly the weights read (repeated zero-weight blocks add up: the zero weight is accumulated, not overwritten).",
          "That encoders emit exactly the documented grammar, and that every grammatical stream decodes to the documented content, is not discharged deductively (no stream-denotation contract yet). ",
          "DESIGN 4 C07"),
  "C08": ("Error propagation proved for all byte strings: primitive decoders return io.EOF without consuming on any incomplete code (C18); the generic bin decoder returns nil only if every primitive read succeeded and the layout is known; the sketch decoder returns nil only if every block (including the bin blocks: genuine defect found and fixed) was complete, every flag known, no mapping block differed from the sketch's mapping, and a mapping is present; all decoding loops terminate (decreases) and no decoder panics or reads out of bounds.",
